@@ -38,11 +38,13 @@ TIERS = {
     "quick": {"shards": 4, "cases": 2000, "timeout": 300},
     "thorough": {"shards": 16, "cases": 20000, "timeout": 3000},
 }
-FLOORS = {"quick": {"lazy_wrappers_consumed": 6000,
+FLOORS = {"quick": {"wrappers_with_two_components_called": 6000,
+                    "lazy_wrappers_consumed": 6000,
                     "distinct_nontrivial": 800, "requests_checked": 80000, "clone_with_list": 2000,
                     "requests_through_original_after_derivation": 15000, "caller_objects_checked": 30000,
                     "response_adapter_orders_checked": 80000},
-          "thorough": {"lazy_wrappers_consumed": 24000,
+          "thorough": {"wrappers_with_two_components_called": 24000,
+                       "lazy_wrappers_consumed": 24000,
                        "distinct_nontrivial": 25000, "requests_checked": 1200000, "clone_with_list": 30000,
                        "requests_through_original_after_derivation": 300000, "caller_objects_checked": 400000,
                        "response_adapter_orders_checked": 1200000}}
